@@ -119,6 +119,35 @@ Nfa Nfa::from_json(const Json &j)
     return a;
 }
 
+// words sharing their last two phones (set by the DEC world from its dictionary): converging arcs labelled with
+// rhyming words exit in the same frames with the same right-context sets, the situation in which a search that
+// mixes up history entries reports a spliced path
+static std::vector<std::vector<std::string>> g_rhymes;
+void set_rhyme_groups(const std::vector<std::vector<std::string>> &groups) { g_rhymes = groups; }
+
+static bool rhyme_pair(Rng &r, const std::vector<std::string> &prefer, std::string &a, std::string &b)
+{
+    if (g_rhymes.empty())
+        return false;
+    std::vector<const std::vector<std::string> *> cand;
+    for (auto &g : g_rhymes)
+        for (auto &w : g)
+            if (std::find(prefer.begin(), prefer.end(), w) != prefer.end())
+                cand.push_back(&g);
+    const std::vector<std::string> &g = !cand.empty() && r.chance(0.7) ? *cand[r.below(cand.size())] : g_rhymes[r.below(g_rhymes.size())];
+    if (g.size() < 2)
+        return false;
+    size_t i = r.below(g.size()), j = r.below(g.size() - 1);
+    if (j >= i)
+        ++j;
+    a = g[i];
+    b = g[j];
+    // put a preferred (spoken) word first when there is one
+    if (std::find(prefer.begin(), prefer.end(), b) != prefer.end())
+        std::swap(a, b);
+    return true;
+}
+
 static std::string pick_word(Rng &r, const std::vector<std::string> &vocab, const std::vector<std::string> &prefer)
 {
     if (!prefer.empty() && r.chance(0.5))
@@ -147,8 +176,72 @@ static Json pack(const std::string &kind, const std::string &text, const Nfa &nf
     return g;
 }
 
+// Two parallel sentences that differ in one rhyming word (and in a leading extra word) and MERGE in the state after
+// it: the word exits of the two rhyming words land in the same state, frame and right-context set.
+static bool gen_parallel_merge(Rng &r, const std::vector<std::string> &vocab, const std::vector<std::string> &prefer, Json &out)
+{
+    if (prefer.size() < 3 || g_rhymes.empty())
+        return false;
+    // a preferred word (not the first) that has a rhyme partner
+    std::vector<std::pair<size_t, std::string>> cand;
+    for (size_t i = 1; i < prefer.size(); ++i)
+        for (auto &g : g_rhymes)
+            if (std::find(g.begin(), g.end(), prefer[i]) != g.end())
+                for (auto &w : g)
+                    if (w != prefer[i])
+                        cand.emplace_back(i, w);
+    if (cand.empty())
+        return false;
+    auto pick = cand[r.below(cand.size())];
+    size_t k = pick.first;
+    Nfa a;
+    std::vector<double> ap;
+    std::ostringstream body;
+    int start = a.add_state();
+    // chain A: the sentence with the rhyme substituted at position k
+    int cur = start;
+    std::vector<int> a_states;
+    for (size_t i = 0; i < k; ++i) {
+        int nx = a.add_state();
+        a.add(cur, nx, prefer[i]);
+        cur = nx;
+    }
+    int merge = a.add_state();
+    a.add(cur, merge, pick.second);
+    // chain B: an extra leading word, then the true sentence
+    std::string lead = r.chance(0.5) && !vocab.empty() ? r.pick(vocab) : std::string("a");
+    cur = a.add_state();
+    a.add(start, cur, lead);
+    for (size_t i = 0; i < k; ++i) {
+        int nx = a.add_state();
+        a.add(cur, nx, prefer[i]);
+        cur = nx;
+    }
+    a.add(cur, merge, prefer[k]);
+    cur = merge;
+    for (size_t i = k + 1; i < prefer.size(); ++i) {
+        int nx = a.add_state();
+        a.add(cur, nx, prefer[i]);
+        cur = nx;
+    }
+    a.start = start;
+    a.finals = { cur };
+    std::ostringstream o;
+    o << "FSG_BEGIN pm" << (r.next() & 0xfff) << "\nNUM_STATES " << a.n << "\nSTART_STATE " << start << "\nFINAL_STATE " << cur << "\n";
+    for (auto &arc : a.arcs)
+        o << "TRANSITION " << arc.from << " " << arc.to << " " << (r.chance(0.5) ? "1.0" : "0.5") << " " << arc.label << "\n";
+    o << "FSG_END\n";
+    out = pack("fsg", o.str(), a, { "parallel_merge", "rhyming_convergence" });
+    return true;
+}
+
 static Json gen_fsg_pref(Rng &r, const std::vector<std::string> &vocab, const std::vector<std::string> &prefer)
 {
+    if (r.chance(0.2)) {
+        Json pm;
+        if (gen_parallel_merge(r, vocab, prefer, pm))
+            return pm;
+    }
     int N = (int)r.range(2, 8);
     Nfa a;
     a.n = N;
@@ -201,6 +294,19 @@ static Json gen_fsg_pref(Rng &r, const std::vector<std::string> &vocab, const st
                 std::string w = !prefer.empty() && pi < prefer.size() && r.chance(0.7) ? prefer[pi++] : pick_word(r, vocab, prefer);
                 a.add(path[i], path[i + 1], w);
                 ap.push_back(r.pick(probs));
+            }
+        }
+    }
+    if (N >= 3 && r.chance(0.45)) { // two arcs from DIFFERENT states into the same state, labelled with rhyming words
+        std::string w1, w2;
+        if (rhyme_pair(r, prefer, w1, w2)) {
+            int t = (int)r.below((uint64_t)N), f1 = (int)r.below((uint64_t)N), f2 = (int)r.below((uint64_t)N);
+            if (f1 != f2) {
+                a.add(f1, t, w1);
+                ap.push_back(r.pick(probs));
+                a.add(f2, t, w2);
+                ap.push_back(r.pick(probs));
+                feat.push_back("rhyming_convergence");
             }
         }
     }
